@@ -281,6 +281,17 @@ func (c *updater) buildBackendAuthExternal(d *backData) {
 		// anything but frontend is the default placement: an unknown value
 		// must not leave the declared authentication unconfigured
 		isBackend := config.Get(ingtypes.BackAuthExternalPlacement).ToLower() != "frontend"
+		if !isBackend {
+			// the frontend placement is decided from the annotations of the host,
+			// which does not see the ones from services: the backend only steps
+			// aside if the frontend is really authenticating this path
+			host := c.haproxy.Hosts().FindHost(path.Link.Hostname())
+			if host == nil {
+				isBackend = true
+			} else if hostPath := host.FindPathWithLink(path.Link); hostPath == nil || hostPath.AuthExt == nil {
+				isBackend = true
+			}
+		}
 		url := config.Get(ingtypes.BackAuthURL)
 		if isBackend && url.Value != "" {
 			c.setAuthExternal(config, &path.AuthExternal, url)
